@@ -46,9 +46,31 @@ THEOREMS = [
     "SymmModel.C16.const_toDense",
     "SymmModel.C16.fromDense_error_indep",
     "SymmModel.C16.fromDense_ignores_invalid",
-    "SymmModel.C16.fromDense_lossless_iff"
+    "SymmModel.C16.fromDense_lossless_iff",
+    "SymmModel.C16.randIndex_wf_partial",
+    "SymmModel.C16.randIndex_wf_counterexample",
+    "SymmModel.C16.randIndex_unsupported",
+    "SymmModel.C16.randZ2Index_wf_partial",
+    "SymmModel.C16.randZ2Index_minimal_counterexample",
+    "SymmModel.C16.randZ2Z2Index_wf",
+    "SymmModel.C16.randU1Index_wf",
+    "SymmModel.C16.randU1U1Index_wf",
+    "SymmModel.C16.randIndex_explicit_wf",
+    "SymmModel.C16.randIndex_explicit_zero_counterexample",
+    "SymmModel.C16.randZ2Index_explicit_d1_ignored",
+    "SymmModel.C16.randZ2Z2Index_explicit_truncates",
+    "SymmModel.C16.randZ2Index_explicit_unpack",
+    "SymmModel.C16.randZ2Z2Index_dict_type_error",
+    "SymmModel.C16.randPartition_parts",
+    "SymmModel.C16.randPartition_last_ge_two",
+    "SymmModel.C16.randPartition_error",
+    "SymmModel.C16.chargeSequences_spec",
+    "SymmModel.C16.chooseDuals_spec",
+    "SymmModel.C16.fillDtype_eq",
+    "SymmModel.C16.randBlockSizes_spec",
+    "SymmModel.C16.getRand_valid"
 ]
-LEAN_FILES = ["SymmModel.Props.C16", "SymmModel.Proofs.DenseLemmas", "SymmModel.Props.C16b", "SymmModel.Props.C16All", "SymmModel.Proofs.Dense3c"]
+LEAN_FILES = ["SymmModel.Props.C16", "SymmModel.Proofs.DenseLemmas", "SymmModel.Props.C16b", "SymmModel.Props.C16All", "SymmModel.Proofs.Dense3c", "SymmModel.Props.C16c", "SymmModel.Proofs.RandLemmas", "SymmModel.Model.Rand"]
 PLANNED = []
 RULE = ("random tensors described four ways (direct constructor, from_blocks, from_dense with per-axis charge "
         "labels, from_fill_fn) on fixed-symmetry and generic classes, abelian and fermionic, every combination of "
@@ -59,8 +81,13 @@ RULE = ("random tensors described four ways (direct constructor, from_blocks, fr
         '; dict labellings with shuffled insertion order')
 ANCHORS = {"abelian_core.py": ["__init__", "get_class_symmetry", "from_fill_fn", "from_blocks", "from_dense",
                                "to_dense"],
-           "fermionic_core.py": ["__init__", "oddpos_parse", "to_dense"]}
-ASSUMPTIONS = []
+           "fermionic_core.py": ["__init__", "oddpos_parse", "to_dense"],
+           "utils.py": ["get_random_fill_fn", "rand_z2_index", "rand_partition", "rand_z2z2_index", "get_u1_charges",
+                        "rand_u1_index", "get_u1u1_charges", "rand_u1u1_index", "choose_duals", "get_rand_z2array",
+                        "get_rand_z2z2array", "get_rand_u1array", "get_rand_u1u1array", "get_rand",
+                        "get_rand_blockvector", "rand_index", "from_dense"]}
+ASSUMPTIONS = ["utils.py generators: every draw from the numpy Generator enters the model as a parameter (recorded on the "
+               "real run and replayed); int(n**0.5) is modelled by Nat.sqrt (compared for n < 20000)"]
 
 
 def _cls(sym, fermi, static):
@@ -352,6 +379,9 @@ def run(ctx):
     n = 6000 if ctx.tier == "quick" else 40000
     stream.run_stream(ctx, "build", "harness.props.c16", "gen_cases", n, per_chunk=80,
                       canon_kw=dict(drop_zero=False))
+    # the public random constructors of symmray/utils.py against their literal model (draws as parameters)
+    from . import c16_rand
+    c16_rand.run_c16_rand(ctx)
 
 
 def replay(ctx, payload):
